@@ -26,6 +26,7 @@ LEVEL_TEXT = (
     "Which candidates minimise a particular surrogate, and argmin ties, are runtime values and not decided."
     " The substitution rules of the BaseSampler.sample wrapper (C12) are included: what replaces a duplicate comes from the sampler's own sample_batch, never from another distribution."
     " The grid constructor rule (consecutive grid values differ by the precision; C15-R3 without the 1e-7 end-point clause) is included: 'displaced by k precision steps' presupposes it."
+    " (R2b) the labels that reach the float32 XGBoost regressor pass through the sampler's own clipping (reaching definition in fit). R3 composes the updates of row[index] along every path of the shocked-coordinate loop (augmented and plain stores, locals, if/else, enumerate positions, min/max confinement) and compares the displacement and the clip bounds as normal forms."
 )
 TECHNIQUE = "interprocedural flow-sensitive alias/mutation analysis + formula normal form + interval folding"
 
